@@ -28,6 +28,57 @@ Check C13_always_returns :
 Check C13_can_return :
   forall max ls s, run (init max) ls = Some s ->
   exists ls' s' r, run s ls' = Some s' /\ returned s' = Some r.
+Check C13_accept_sound :
+  forall max interval fs o,
+  accept max interval fs o = true -> PropObs max fs (o_starts o) (o_res o) (o_end o).
+Check C13_prop_obs_spec :
+  forall max fs sts r e,
+  prop_obs max fs (mkObs sts r e) = true <-> PropObs max fs sts r e.
+Check C13_accept_schedule :
+  forall max interval fs o,
+  accept max interval fs o = true ->
+  exists ls s, run (init max) ls = Some s /\ returned s = Some (o_res o) /\
+               started s = List.length (o_starts o).
+Check C13_accept_complete :
+  forall max interval fs oracle,
+  exists o, timed_run (fuel_for max) oracle interval fs (tinit max interval) = Some o /\
+            accept max interval fs o = true.
+Check C13_gate_cases :
+  forall c,
+  gate c = None <->
+  (is_idempotent c = false \/ metrics_and_policy c = None \/ metrics_and_policy c = Some None).
+Check C13_gate :
+  forall c pl bls b, gate c = None -> brun (binit c pl) bls = Some b ->
+  started (core b) = 1 /\ (forall f, In f (running (core b)) -> f = 0) /\
+  (forall d, In d (draws b) -> fst d = 0) /\
+  List.length (in_flight b) <= 1 /\
+  returned (core b) = spec_returned 0 1 (completions (proj bls)).
+Check C13_gate_open :
+  forall c pl bls b max, gate c = Some max -> brun (binit c pl) bls = Some b ->
+  run (init max) (proj bls) = Some (core b) /\ List.length (in_flight b) <= 1 + max.
+Check C13_plan_conservation :
+  forall c pl bls b, brun (binit c pl) bls = Some b ->
+  pl = rev (drawn (draws b)) ++ plan b.
+Check C13_distinct_targets :
+  forall c pl bls b, NoDup pl -> brun (binit c pl) bls = Some b ->
+  NoDup (drawn (draws b)) /\
+  (forall f1 f2 t, In (f1, Some t) (draws b) -> In (f2, Some t) (draws b) -> f1 = f2) /\
+  NoDup (in_flight b).
+Check C13_exhausted_sound :
+  forall c pl bls b f b', brun (binit c pl) bls = Some b ->
+  bstep b (BComplete f None) = Some b' -> plan b = [] /\ plan b' = [].
+Check C13_probe_guided :
+  forall c interval tg o,
+  baccept_guided c interval tg o = baccept c interval tg o.
+Check C13_probe_accept_sound :
+  forall c interval tg o,
+  baccept_guided c interval tg o = true -> prop_trace c tg o = true.
+Check C13_probe_accept_schedule :
+  forall c interval tg o,
+  baccept_guided c interval tg o = true ->
+  (exists bls b, brun (binit c (map fst tg)) bls = Some b /\ returned (core b) = Some (bo_res o) /\
+                 begins (bo_events o) = rev (drawn (draws b))) /\
+  is_prefix (begins (bo_events o)) (map fst tg) = true.
 Print Assumptions C13_ignorable_table.
 Print Assumptions C13_bound.
 Print Assumptions C13_result.
@@ -36,3 +87,16 @@ Print Assumptions C13_measure.
 Print Assumptions C13_terminates.
 Print Assumptions C13_always_returns.
 Print Assumptions C13_can_return.
+Print Assumptions C13_accept_sound.
+Print Assumptions C13_prop_obs_spec.
+Print Assumptions C13_accept_schedule.
+Print Assumptions C13_accept_complete.
+Print Assumptions C13_gate_cases.
+Print Assumptions C13_gate.
+Print Assumptions C13_gate_open.
+Print Assumptions C13_plan_conservation.
+Print Assumptions C13_distinct_targets.
+Print Assumptions C13_exhausted_sound.
+Print Assumptions C13_probe_guided.
+Print Assumptions C13_probe_accept_sound.
+Print Assumptions C13_probe_accept_schedule.
